@@ -20,10 +20,10 @@ import (
 // it was executing and replaced, so "crashes the process" and "wedges" are observable outcomes.
 
 type JobResult struct {
-	Out     string // handler output ("" on crash/timeout)
-	Crashed bool
+	Out      string // handler output ("" on crash/timeout)
+	Crashed  bool
 	TimedOut bool
-	Stderr  string
+	Stderr   string
 }
 
 type worker struct {
@@ -57,9 +57,9 @@ type Pool struct {
 	// MemLimitKB > 0 runs every worker under `ulimit -v` so that a runaway allocation kills the worker
 	// (attributed to its job) instead of the machine.
 	MemLimitKB int64
-	Crashes  int
-	Timeouts int
-	mu       sync.Mutex
+	Crashes    int
+	Timeouts   int
+	mu         sync.Mutex
 }
 
 func IsWorker() bool { return os.Getenv("VERIF_WORKER") == "1" }
